@@ -96,6 +96,11 @@ func steps() []step {
 	node("b", func() *sbom.Node { return &sbom.Node{Id: "b", Name: "nb"} })
 	node("a-file", func() *sbom.Node { return &sbom.Node{Id: "a", Type: sbom.Node_FILE, Name: "fa"} })
 	node("empty-id", func() *sbom.Node { return &sbom.Node{} })
+	// identifiers inside or next to the namespace the library generates (protobom-<flags>--<seed>)
+	for _, rid := range []string{"protobom-lib", "protobom-", "protobom", "protobom-auto", "protobom-auto--000000001", "protobom--", "--", "protobom-auto-x--"} {
+		rid := rid
+		node("reserved:"+rid, func() *sbom.Node { return &sbom.Node{Id: rid, Name: "reserved"} })
+	}
 	node("b-type7", func() *sbom.Node { return &sbom.Node{Id: "b", Type: 7} })
 	node("c-full", func() *sbom.Node {
 		n := &sbom.Node{}
